@@ -328,11 +328,25 @@ func c16Prop(c *sim.Case) {
 	if err != nil {
 		c.Violation("secret-controller-error", "%v", err)
 	}
-	// Secrets exist from the start with the initial value, reconciled once before traffic (as the manager would)
+	// Secrets exist from the start with the initial value. Usually they are reconciled once before traffic; in a third of
+	// the workloads the first reconcile comes a little after the first requests (the controller manager and the gRPC
+	// server start side by side), so that logins meet a filter whose secret has not arrived yet
+	lateSecret := sim.Weighted(c, "secret-arrives-late", 2, 1) == 1
 	for _, t := range tenants {
 		if t.secRef {
 			_ = kc.Create(ctx, &corev1.Secret{ObjectMeta: metav1.ObjectMeta{Namespace: "default", Name: "sec-" + t.name}, Data: map[string][]byte{"client-secret": []byte(t.secret)}})
-			_, _ = secCtl.Reconcile(ctx, ctrl.Request{NamespacedName: types.NamespacedName{Namespace: "default", Name: "sec-" + t.name}})
+			key := types.NamespacedName{Namespace: "default", Name: "sec-" + t.name}
+			if lateSecret {
+				c.Class("workload:secret-arrives-late")
+				delay := time.Duration(20+sim.Pick(c, "secret.delay", 60)) * time.Millisecond
+				go func() {
+					time.Sleep(delay)
+					// (a reconcile that never returns shows in the checks that then wait behind it)
+					_, _ = secCtl.Reconcile(ctx, ctrl.Request{NamespacedName: key})
+				}()
+			} else {
+				_, _ = secCtl.Reconcile(ctx, ctrl.Request{NamespacedName: key})
+			}
 		}
 	}
 
